@@ -1,0 +1,9 @@
+//go:build !verif
+// +build !verif
+
+// Package verifhook provides yield points for the deterministic scheduler of the verification harness.
+// With the build tag `verif` off (the default) Point is an empty function.
+package verifhook
+
+// Point marks a lock-free window; a no-op in normal builds.
+func Point(string) {}
